@@ -101,6 +101,11 @@ def gen_cases(tier, seed):
         i += 1
         yield {'family': 'row_func_spawns_child', 'workers': w, 'pred': 'none', 'n': 20, 'idx': i, 'seed': seed, 'rep': 0,
                'layout': 'single', 'yield_injection': False}
+    # rows far larger than a pipe buffer (64 KiB): several workers deliver at the same time, every row arrives whole
+    for w in (2, 4) if tier == 'quick' else (1, 2, 3, 4):
+        i += 1
+        yield {'family': 'big_rows', 'workers': w, 'pred': 'none', 'n': 60, 'idx': i, 'seed': seed, 'rep': 0,
+               'layout': 'single', 'yield_injection': False}
     for fam, secs in pauses:
         for w in (2, 3):
             i += 1
@@ -191,11 +196,16 @@ def child_main(case, logpath, outpath):
                 import decimal
                 yield {'id': i, 'v': 'a%d' % i, 'q': str(decimal.Decimal(i + 1) / decimal.Decimal(7))}
                 continue
+            if case['family'] == 'big_rows':
+                yield {'id': i, 'v': 'a%d' % i, 'blob': ('%05d' % i) * 40000}
+                continue
             yield {'id': i, 'v': 'a%d' % i}
     F = [{'name': 'id', 'type': 'integer'}, {'name': 'v', 'type': 'string'}, {'name': '_applied', 'type': 'integer'},
          {'name': '_pid', 'type': 'integer'}]
     if case['family'] == 'context_local':
         F = F + [{'name': 'q', 'type': 'string'}]
+    if case['family'] == 'big_rows':
+        F = F + [{'name': 'blob', 'type': 'string'}]
     desc_a = {'resources': [{'name': 'a', 'path': 'a.csv', 'schema': {'fields': F}}]}
     steps = [d.load((desc_a, [rows_a()]), strip=False)]
     sel = 'a'
@@ -217,6 +227,12 @@ def child_main(case, logpath, outpath):
     try:
         with boot.quiet():
             results, dp, _ = d.Flow(*steps).results(on_error=None)
+        if case['family'] == 'big_rows':
+            for r_ in results[0]:
+                if isinstance(r_, dict):
+                    b_ = r_.get('blob')
+                    r_['blob'] = 'whole' if b_ == ('%05d' % r_.get('id', -1)) * 40000 else 'not the blob of this row (%s, %d chars)' \
+                        % (type(b_).__name__, len(b_) if isinstance(b_, str) else -1)
         res = {'returned': True, 'results': results, 'names': [r['name'] for r in dp.descriptor['resources']]}
     except Exception as e:
         c = getattr(e, 'cause', e)
@@ -258,9 +274,18 @@ def run_case(case):
     outpath = os.path.abspath('out.json')
     sys.stdout.flush()
     pid = os.fork()
+    excpath = os.path.abspath('thread_exc.log')
     if pid == 0:
         try:
             os.setsid()
+            import threading
+
+            def thread_died(args):
+                # a thread of the run ended with an uncaught exception: recorded (an event, not a clock)
+                with open(excpath, 'a') as f_:
+                    f_.write('%s: %s: %s\n' % (getattr(args.thread, 'name', '?'), getattr(args.exc_type, '__name__', '?'),
+                                               str(args.exc_value)[:200]))
+            threading.excepthook = thread_died
             child_main(case, logpath, outpath)
         except BaseException as e:
             try:
@@ -334,6 +359,11 @@ def run_case(case):
     if verdict_deadlock:
         add('deadlock', verdict_deadlock + '; last events %r' % [(e['role'], e['op'], e['q'], e.get('item')) for e in ev[-8:]])
         return dict(nontrivial=True, violations=viol, cov=cov, counters=counters)
+    if (status is None or not os.path.exists(outpath)) and os.path.exists(excpath) and os.path.getsize(excpath):
+        # not a verdict from the clock alone: a thread the run depends on is known to have died, and the run never returned
+        add('deadlock', 'a thread of the run died with an uncaught exception (%s) and the flow did not return (%.0fs)'
+            % (open(excpath).read().strip().splitlines()[0][:250], WATCHDOG_S), 'thread_died_run_never_returned')
+        return dict(nontrivial=True, violations=viol, cov=cov, counters=counters)
     if status is None or not os.path.exists(outpath):
         return dict(nontrivial=False, violations=viol, cov=cov, counters=counters,
                     inconclusive='watchdog: run neither finished nor quiescent after %.0fs (%d events)' % (WATCHDOG_S, len(ev)))
@@ -382,6 +412,9 @@ def run_case(case):
                     add('applied_once', 'row %r delivered as %r after two parallelize steps' % (r['id'], r))
                     break
                 continue
+            if case['family'] == 'big_rows' and r.get('blob') != 'whole':
+                add('payload', 'row %r: a 200 KB cell was delivered as %r' % (r['id'], r.get('blob')))
+                break
             if name in par and r['id'] in selected:
                 if case['family'] == 'row_func_raises' and r['id'] % 7 == 0:
                     continue        # (delivered - judged above; the function gave up on it before touching it)
